@@ -57,7 +57,7 @@ NEG_RESIDUE = 1e-12      # an in-image weight below -1e-12 is not a rounding res
 def plan(tier):
     if tier == 'thorough':
         return dict(shards=16, cases=9000, timeout=1800, budget_s=560)
-    return dict(shards=8, cases=900, timeout=600, budget_s=75)
+    return dict(shards=8, cases=1500, timeout=600, budget_s=75)
 
 
 def selftest():
@@ -87,7 +87,7 @@ def _locs_for(rng, cls, n):
         pool = ['outside', 'graze', 'graze', 'far']
     else:
         pool = ['inside', 'inside', 'left', 'right', 'bottom', 'top', 'corner_bl', 'corner_tr', 'corner_br',
-                'corner_tl', 'graze', 'outside', 'integer', 'half']
+                'corner_tl', 'graze', 'outside', 'integer', 'half', 'tangent']
     return [str(rng.choice(pool)) for _ in range(n)]
 
 
@@ -197,7 +197,7 @@ def _cmp_sums(case, obs, ora, what, mech, key='sum', rtol=RTOL_SUM):
         scale = o['scale'] if key == 'sum' else (abs(exp) if math.isfinite(exp) else 0.0)
         atol = ATOL_AREA_PER_PIXEL * float(o['inbox'].sum()) if key == 'area' else 0.0
         ok, d = R.near(obs[k], exp, scale, rtol, atol)
-        if key == 'area' and math.isfinite(exp) and math.isfinite(float(obs[k])):
+        if ok and key == 'area' and math.isfinite(exp) and math.isfinite(float(obs[k])):
             case.dev(what + '_abs_per_box_pixel', abs(float(obs[k]) - exp) / max(1.0, float(o['inbox'].sum())))
             d = d if scale > 1e-9 else 0.0
         case.dev(what, d if ok else 0.0)
